@@ -115,6 +115,32 @@ pub open spec fn batches_sorted(bs: Seq<Batch>) -> bool {
     forall|i: int| 0 <= i < bs.len() ==> starts_sorted((#[trigger] bs[i]).items)
 }
 
+/// concatenation of the emitted sections
+pub open spec fn flat(bs: Seq<Batch>) -> Seq<BedEntry>
+    decreases bs.len()
+{
+    if bs.len() == 0 { Seq::empty() } else { flat(bs.drop_last()) + bs.last().items }
+}
+/// State of one chromosome's writer between two entries (C02 at the hand-off boundary): the
+/// emitted sections concatenate to the emitted stream, every section has 1..=ips entries of this
+/// chromosome and is start-sorted, fewer than ips entries are pending, and everything accepted
+/// so far (emitted ++ pending) is start-sorted.
+pub open spec fn chain_inv(sink: SectionSink, items: Seq<BedEntry>, ips: u32, chrom: u32, compress: bool) -> bool {
+    &&& flat(sink.batches()) == sink.log()
+    &&& items.len() < ips
+    &&& batches_ok(sink.batches(), ips, chrom, compress)
+    &&& batches_sorted(sink.batches())
+    &&& starts_sorted(accepted(sink, items))
+}
+proof fn lemma_le_suffix(a: Seq<BedEntry>, b: Seq<BedEntry>, m: u32)
+    requires all_start_le(a + b, m),
+    ensures all_start_le(b, m),
+{
+    assert forall|i: int| 0 <= i < b.len() implies (#[trigger] b[i]).start <= m by {
+        assert((a + b)[a.len() + i] == b[i]);
+    }
+}
+
 proof fn lemma_sorted_push(s: Seq<BedEntry>, x: BedEntry)
     requires starts_sorted(s), all_start_le(s, x.start),
     ensures starts_sorted(s.push(x)),
@@ -192,6 +218,14 @@ proof fn lemma_le_push(s: Seq<BedEntry>, x: BedEntry, b: u32)
         r.is_ok() && starts_sorted(old(items)@) && all_start_le(old(items)@, current_val.start) && batches_sorted(old(ftx).batches())
             ==> batches_sorted(final(ftx).batches()) && starts_sorted(final(items)@)
                 && (next_val.is_some() ==> all_start_le(final(items)@, next_val.unwrap().start)),
+        [[L: chain_invariant_preserved]]
+        r.is_ok() && chain_inv(*old(ftx), old(items)@, options.items_per_slot, chrom_id, options.compress)
+            && all_start_le(accepted(*old(ftx), old(items)@), current_val.start)
+            ==> chain_inv(*final(ftx), final(items)@, options.items_per_slot, chrom_id, options.compress)
+                && (next_val.is_some() ==> all_start_le(accepted(*final(ftx), final(items)@), next_val.unwrap().start)),
+        [[L: whole_chromosome_delivered_in_order]]
+        r.is_ok() && next_val.is_none() && chain_inv(*old(ftx), old(items)@, options.items_per_slot, chrom_id, options.compress)
+            ==> flat(final(ftx).batches()) == accepted(*old(ftx), old(items)@).push(current_val),
 //@at /items\.push\(current_val\);/ before
     let ghost acc0 = accepted(*ftx, items@);
     let ghost items0 = items@;
@@ -202,7 +236,7 @@ proof fn lemma_le_push(s: Seq<BedEntry>, x: BedEntry, b: u32)
 //@at /^\s*Ok\(\(\)\)\s*$/ before
     proof {
         let all = items0.push(current_val);
-        assert(accepted(*ftx, items@) =~= acc0.push(current_val));
+        assert(accepted(*ftx, items@) =~= acc0.push(current_val)); [[L: accepted_grows_by_exactly_current]]
         if starts_sorted(items0) && all_start_le(items0, current_val.start) {
             lemma_sorted_push(items0, current_val);
             if next_val.is_some() { lemma_le_push(items0, current_val, next_val.unwrap().start); }
@@ -211,87 +245,20 @@ proof fn lemma_le_push(s: Seq<BedEntry>, x: BedEntry, b: u32)
             lemma_sorted_push(acc0, current_val);
             if next_val.is_some() { lemma_le_push(acc0, current_val, next_val.unwrap().start); }
         }
+        if next_val.is_none() || all.len() >= options.items_per_slot as int {
+            let b = Batch { items: all, chrom: chrom_id, compress: options.compress };
+            assert(bs0.push(b).drop_last() =~= bs0);
+            assert(bs0.push(b).last() == b);
+            assert((old(ftx).log() + items0).push(current_val) =~= old(ftx).log() + all);
+        }
+        if starts_sorted(acc0) && all_start_le(acc0, current_val.start) {
+            lemma_sorted_suffix(old(ftx).log(), items0);
+            lemma_le_suffix(old(ftx).log(), items0, current_val.start);
+            lemma_sorted_push(items0, current_val);
+        }
     }
 //@end
 
-
-// ---------------- adequacy: the per-call clauses compose over a whole chromosome ----------------
-/// concatenation of the emitted sections
-pub open spec fn flat(bs: Seq<Batch>) -> Seq<BedEntry>
-    decreases bs.len()
-{
-    if bs.len() == 0 { Seq::empty() } else { flat(bs.drop_last()) + bs.last().items }
-}
-/// state of one chromosome's writer after the accepted entries `hist` (input order)
-pub open spec fn chain_inv(sink: SectionSink, items: Seq<BedEntry>, hist: Seq<BedEntry>, ips: u32, chrom: u32, compress: bool) -> bool {
-    &&& accepted(sink, items) == hist
-    &&& flat(sink.batches()) == sink.log()
-    &&& items.len() < ips
-    &&& batches_ok(sink.batches(), ips, chrom, compress)
-    &&& batches_sorted(sink.batches())
-    &&& starts_sorted(hist)
-}
-proof fn lemma_le_suffix(a: Seq<BedEntry>, b: Seq<BedEntry>, m: u32)
-    requires all_start_le(a + b, m),
-    ensures all_start_le(b, m),
-{
-    assert forall|i: int| 0 <= i < b.len() implies (#[trigger] b[i]).start <= m by {
-        assert((a + b)[a.len() + i] == b[i]);
-    }
-}
-/// Hand-written client (NOT repository code): one step of the per-chromosome feeding loop of
-/// beddata.rs (`do_process(val, next_value)` with next_value = the following entry of the same
-/// chromosome or None).  It only calls the extracted `process_val`; what is proved is that the
-/// labelled postconditions above are strong enough to carry `chain_inv` from entry to entry and
-/// to conclude, at the last entry, that the emitted sections are exactly the input, in order.
-fn chain_step(
-    current_val: BedEntry, next_val: Option<&BedEntry>, chrom_length: u32, chrom: &String,
-    summary: &mut Option<Summary>, items: &mut Vec<BedEntry>, overlap: &mut Overlap,
-    options: &BBIWriteOptions, runtime: &Handle, ftx: &mut SectionSink, chrom_id: u32,
-    Ghost(hist): Ghost<Seq<BedEntry>>,
-) -> (r: Result<(), ProcessDataError>)
-    requires
-        chain_inv(*old(ftx), old(items)@, hist, options.items_per_slot, chrom_id, options.compress),
-        all_start_le(hist, current_val.start),
-    ensures
-        [[L: chain/invariant_is_inductive]]
-        r.is_ok() ==> chain_inv(*final(ftx), final(items)@, hist.push(current_val), options.items_per_slot, chrom_id, options.compress)
-            && (next_val.is_some() ==> all_start_le(hist.push(current_val), next_val.unwrap().start)),
-        [[L: chain/whole_chromosome_delivered_in_order]]
-        r.is_ok() && next_val.is_none() ==> flat(final(ftx).batches()) == hist.push(current_val) && final(items)@.len() == 0,
-        [[L: chain/refusal_keeps_state]]
-        r.is_err() ==> chain_inv(*final(ftx), final(items)@, hist, options.items_per_slot, chrom_id, options.compress),
-{
-    proof {
-        lemma_sorted_suffix(ftx.log(), items@);
-        lemma_le_suffix(ftx.log(), items@, current_val.start);
-    }
-    let ghost bs0 = ftx.batches();
-    let ghost log0 = ftx.log();
-    let ghost items0 = items@;
-    let ghost all = items@.push(current_val);
-    let r = process_val(current_val, next_val, chrom_length, chrom, summary, items, overlap, options, runtime, ftx, chrom_id);
-    proof {
-        if r.is_ok() {
-            if next_val.is_none() || all.len() >= options.items_per_slot as int {
-                let b = Batch { items: all, chrom: chrom_id, compress: options.compress };
-                assert(bs0.push(b).drop_last() =~= bs0);
-                assert(bs0.push(b).last() == b);
-                assert(ftx.log() + items@ =~= ftx.log());
-                assert((log0 + items0).push(current_val) =~= log0 + all);
-                assert(ftx.log() == log0 + all);
-                assert(flat(ftx.batches()) == ftx.log());
-            } else {
-                assert(items@ == all);
-            }
-            assert(accepted(*ftx, items@) == hist.push(current_val));
-            assert(batches_ok(ftx.batches(), options.items_per_slot, chrom_id, options.compress));
-            assert(batches_sorted(ftx.batches()));
-            assert(starts_sorted(hist.push(current_val)));
-        }
-    }
-    r
-}
 
 // =====================================================================================
 // (2) item counting: the two `do_process` methods
@@ -345,12 +312,21 @@ impl BigBedFullProcess {
         [[L: full/refused_input_is_err]]
         refused(current_val, next_val, old(self).length) ==> r.is_err()
             && final(self).state_val.items@ == old(self).state_val.items@
-            && final(self).ftx.log() == old(self).ftx.log() && final(self).ftx.batches() == old(self).ftx.batches(),
+            && final(self).ftx.log() == old(self).ftx.log() && final(self).ftx.batches() == old(self).ftx.batches()
+            && final(self).summary == old(self).summary && final(self).state_val.overlap == old(self).state_val.overlap
+            && final(self).state_val.zoom_items@ == old(self).state_val.zoom_items@,
         [[L: full/accepted_input_is_kept]]
         !refused(current_val, next_val, old(self).length) ==>
             accepted(final(self).ftx, final(self).state_val.items@) == accepted(old(self).ftx, old(self).state_val.items@).push(current_val),
         [[L: full/chrom_end_flushes_everything]]
         !refused(current_val, next_val, old(self).length) && next_val.is_none() ==> final(self).state_val.items@.len() == 0,
+        [[L: full/chain_invariant_preserved]]
+        !refused(current_val, next_val, old(self).length)
+            && chain_inv(old(self).ftx, old(self).state_val.items@, old(self).options.items_per_slot, old(self).chrom_id, old(self).options.compress)
+            && all_start_le(accepted(old(self).ftx, old(self).state_val.items@), current_val.start)
+            ==> chain_inv(final(self).ftx, final(self).state_val.items@, old(self).options.items_per_slot, old(self).chrom_id, old(self).options.compress)
+                && (next_val.is_some() ==> all_start_le(accepted(final(self).ftx, final(self).state_val.items@), next_val.unwrap().start))
+                && (next_val.is_none() ==> flat(final(self).ftx.batches()) == accepted(old(self).ftx, old(self).state_val.items@).push(current_val)),
         [[L: full/frame]]
         final(self).chrom_id == old(self).chrom_id, final(self).length == old(self).length,
         final(self).options == old(self).options,
@@ -388,6 +364,13 @@ impl BigBedNoZoomsProcess {
         r.is_ok() ==> accepted(final(self).ftx, final(self).items@) == accepted(old(self).ftx, old(self).items@).push(current_val),
         [[L: nozooms/chrom_end_flushes_everything]]
         r.is_ok() && next_val.is_none() ==> final(self).items@.len() == 0,
+        [[L: nozooms/chain_invariant_preserved]]
+        r.is_ok()
+            && chain_inv(old(self).ftx, old(self).items@, old(self).options.items_per_slot, old(self).chrom_id, old(self).options.compress)
+            && all_start_le(accepted(old(self).ftx, old(self).items@), current_val.start)
+            ==> chain_inv(final(self).ftx, final(self).items@, old(self).options.items_per_slot, old(self).chrom_id, old(self).options.compress)
+                && (next_val.is_some() ==> all_start_le(accepted(final(self).ftx, final(self).items@), next_val.unwrap().start))
+                && (next_val.is_none() ==> flat(final(self).ftx.batches()) == accepted(old(self).ftx, old(self).items@).push(current_val)),
         [[L: nozooms/frame]]
         final(self).chrom_id == old(self).chrom_id, final(self).length == old(self).length,
         final(self).options == old(self).options,
